@@ -6,6 +6,50 @@
 import MF.Proofs.ExprBasic
 namespace MF.Expr
 
+/-! ## the type of a CAST (the loop of `parseIdentOrPath` in the type model) -/
+
+theorem pathLoop_mono : ∀ (f : Nat) (ts : List Token),
+    TypeP.pathLoop f ts = .outOfFuel ∨ TypeP.pathLoop (f + 1) ts = TypeP.pathLoop f ts
+  | 0, _ => Or.inl rfl
+  | f + 1, ts => by
+    have e1 : TypeP.pathLoop (f + 1) ts = (if TypeP.cur ts = .dot then
+        (TypeP.parseIdent ts.tail).bind fun p => (TypeP.pathLoop f p.2).bind fun q => .ok (p.1 :: q.1, q.2)
+      else .ok ([], ts)) := by simp only [TypeP.pathLoop]
+    have e2 : TypeP.pathLoop (f + 1 + 1) ts = (if TypeP.cur ts = .dot then
+        (TypeP.parseIdent ts.tail).bind fun p => (TypeP.pathLoop (f + 1) p.2).bind fun q => .ok (p.1 :: q.1, q.2)
+      else .ok ([], ts)) := by simp only [TypeP.pathLoop]
+    rw [e1, e2]
+    split
+    · cases hi : TypeP.parseIdent ts.tail with
+      | ok p =>
+        simp only [TypeP.Res.bind_ok]
+        rcases pathLoop_mono f p.2 with h | h
+        · left; rw [h]; rfl
+        · right; rw [h]
+      | raise => right; rfl
+      | outOfFuel => left; rfl
+    · right; rfl
+
+theorem castType_le (f : Nat) (ts : List Token) : Le (castType f ts) (castType (f + 1) ts) := by
+  by_cases hc : TypeP.cur ts = .ident
+  · by_cases hs : TypeP.lookaheadSimpleType ts = true
+    · right; simp [castType, hc, hs]
+    · have hs' : TypeP.lookaheadSimpleType ts = false := by simpa using hs
+      obtain ⟨t, tl, rfl, ht⟩ := TypeP.cur_ne_eof hc (by decide)
+      have hk := TypeP.tk_ident.1 ht
+      cases f with
+      | zero => left; exact castType_zero _ hc hs'
+      | succ f =>
+        rw [castType_succ hk hs', castType_succ hk hs']
+        rcases pathLoop_mono f tl with h | h
+        · left; rw [h]
+        · right; rw [h]
+  · right
+    unfold castType
+    split
+    · rename_i h; exact absurd h hc
+    all_goals rfl
+
 structure MonoAt (f : Nat) : Prop where
   expr : ∀ ts, Le (parseExpr f ts) (parseExpr (f + 1) ts)
   or_ : ∀ ts, Le (parseOr f ts) (parseOr (f + 1) ts)
@@ -35,6 +79,13 @@ structure MonoAt (f : Nat) : Prop where
   idx : ∀ ts, Le (parseIndexSpecifier f ts) (parseIndexSpecifier (f + 1) ts)
   lit : ∀ ts, Le (parseLit f ts) (parseLit (f + 1) ts)
   paren : ∀ ts, Le (parseParenExpr f ts) (parseParenExpr (f + 1) ts)
+  caseE : ∀ ts, Le (parseCaseExpr f ts) (parseCaseExpr (f + 1) ts)
+  caseLoop : ∀ ts, Le (caseWhenLoop f ts) (caseWhenLoop (f + 1) ts)
+  caseWhen : ∀ ts, Le (parseCaseWhen f ts) (parseCaseWhen (f + 1) ts)
+  caseElse : ∀ ts, Le (parseCaseElse f ts) (parseCaseElse (f + 1) ts)
+  ifE : ∀ ts, Le (parseIfExpr f ts) (parseIfExpr (f + 1) ts)
+  arr : ∀ ts, Le (parseSimpleArrayLiteral f ts) (parseSimpleArrayLiteral (f + 1) ts)
+  cast : ∀ ts, Le (parseCastExpr f ts) (parseCastExpr (f + 1) ts)
 
 theorem mono_zero : MonoAt 0 := by
   constructor <;> intros <;> exact Le.oof _
@@ -50,6 +101,8 @@ macro "le_auto" ih:ident : tactic => `(tactic| (
     | exact ($ih).add _ | exact ($ih).addLoop _ _ | exact ($ih).mul _ | exact ($ih).mulLoop _ _
     | exact ($ih).unary _ | exact ($ih).sel _ | exact ($ih).selLoop _ _ | exact ($ih).idx _ | exact ($ih).lit _
     | exact ($ih).paren _
+    | exact ($ih).caseE _ | exact ($ih).caseLoop _ | exact ($ih).caseWhen _ | exact ($ih).caseElse _ | exact ($ih).ifE _
+    | exact ($ih).arr _ | exact ($ih).cast _ | exact castType_le _ _
     | apply Le.bind
     | intro _
     | split))
@@ -83,6 +136,13 @@ theorem mono_succ {f : Nat} (ih : MonoAt f) : MonoAt (f + 1) where
   idx := by intro ts; simp only [parseIndexSpecifier]; le_auto ih
   lit := by intro ts; simp only [parseLit]; le_auto ih
   paren := by intro ts; simp only [parseParenExpr]; le_auto ih
+  caseE := by intro ts; simp only [parseCaseExpr]; le_auto ih
+  caseLoop := by intro ts; simp only [caseWhenLoop]; le_auto ih
+  caseWhen := by intro ts; simp only [parseCaseWhen]; le_auto ih
+  caseElse := by intro ts; simp only [parseCaseElse]; le_auto ih
+  ifE := by intro ts; simp only [parseIfExpr]; le_auto ih
+  arr := by intro ts; simp only [parseSimpleArrayLiteral]; le_auto ih
+  cast := by intro ts; simp only [parseCastExpr]; le_auto ih
 
 theorem mono_all : ∀ f, MonoAt f
   | 0 => mono_zero
